@@ -245,3 +245,121 @@ Section Scan.
       + destruct (Hp j ltac:(lia)) as (p & _ & Hc & _). exact Hc.
   Qed.
 End Scan.
+
+(* ---------- the consumed run as a list of packets ---------- *)
+Lemma In_firstn_nth : forall {A} (l : list A) m x, In x (firstn m l) ->
+  exists j, (j < m)%nat /\ nth_error l j = Some x.
+Proof.
+  intros A l. induction l as [|a l IH]; intros m x H; destruct m; cbn in H; try contradiction.
+  destruct H as [->|H].
+  - exists 0%nat. split; [lia|reflexivity].
+  - apply IH in H. destruct H as (j & Hj & Hn). exists (S j). split; [lia|exact Hn].
+Qed.
+
+Lemma last_cons : forall {A} (rest : list A) a d, last (a :: rest) d = last rest a.
+Proof.
+  intros A rest. induction rest as [|b r IH]; intros a d; [reflexivity|].
+  change (last (a :: b :: r) d) with (last (b :: r) d). rewrite (IH b d), (IH b a). reflexivity.
+Qed.
+
+Lemma nth_error_last : forall {A} (rest : list A) hp,
+  nth_error (hp :: rest) (List.length rest) = Some (last rest hp).
+Proof.
+  intros A rest. induction rest as [|a rest IH]; intro hp; [reflexivity|].
+  cbn [List.length nth_error]. rewrite IH. rewrite last_cons. reflexivity.
+Qed.
+
+Section Run.
+  Variable is_tail : bool -> list N -> bool.
+  Notation ptail p := (is_tail (p_marker p) (p_payload p)).
+
+  Lemma pass_ended_bound : forall s h k res,
+    pass is_tail s h k -> ended is_tail s h k res -> N.of_nat k < 65536.
+  Proof.
+    intros s h k res Hp He.
+    destruct (N.lt_ge_cases (N.of_nat k) 65536) as [H|H]; [exact H|exfalso].
+    pose (j := (k - N.to_nat 65536)%nat).
+    assert (Hj : (j < k)%nat) by (subst j; lia).
+    assert (Hk : w16 (h + N.of_nat j) = w16 (h + N.of_nat k)).
+    { rewrite !w16_spec. subst j. rewrite Nat2N.inj_sub, N2Nat.id.
+      replace (h + N.of_nat k) with (h + (N.of_nat k - 65536) + 1 * 65536) by lia.
+      rewrite N.mod_add by lia. reflexivity. }
+    destruct (Hp j Hj) as (p & Hb & _ & Ht & Hts).
+    destruct He as (q & Hb' & _ & Hc). rewrite Hk in Hb. rewrite Hb in Hb'. injection Hb' as <-.
+    destruct Hc as [[Hc _]|(_ & Hs & Hn & _)]; [congruence|]. apply Hn. apply Hts. exact Hs.
+  Qed.
+
+  Lemma consumed_run : forall s consume col pkts k,
+    l_head (active s) < 65536 ->
+    pass is_tail s (l_head (active s)) k -> ended is_tail s (l_head (active s)) k consume ->
+    l_empty consume = false ->
+    collect s consume = (col, false) -> all_some col = Some pkts ->
+    l_head consume = l_head (active s) /\ l_tail consume < 65536 /\
+    exists hp rest, pkts = hp :: rest /\
+      Forall2 (fun key p => In (key, p) (buf s)) (keys_from (l_head (active s)) (List.length pkts)) pkts /\
+      bget (l_head (active s)) (buf s) = Some hp /\
+      (snd (fetchTimestamp s (active s)) = true ->
+         (forall p, In p (removelast pkts) -> p_ts p = fst (fetchTimestamp s (active s)) /\ ptail p = false) /\
+         (ptail (last rest hp) = false -> p_ts (last rest hp) = fst (fetchTimestamp s (active s)))).
+  Proof.
+    intros s consume col pkts k Hh Hp He Hne Hcol Has.
+    set (h := l_head (active s)) in *.
+    pose proof (pass_ended_bound s h k consume Hp He) as Hk.
+    assert (Hch : l_head consume = h).
+    { destruct He as (q & _ & _ & [[_ ->]|(_ & _ & _ & ->)]); reflexivity. }
+    (* the expected length n of the run and where it ends *)
+    assert (Hn : exists n, w16 (h + N.of_nat n) = l_tail consume /\ (0 < n)%nat /\ N.of_nat n < 65536 /\
+                 ((n = S k /\ exists q, bget (w16 (h + N.of_nat k)) (buf s) = Some q /\ ptail q = true) \/
+                  (n = k))).
+    { destruct He as (q & Hq & _ & [[Ht ->]|(Ht & _ & _ & ->)]); cbn [l_head l_tail l_empty] in *.
+      - exists (S k). apply N.eqb_neq in Hne.
+        assert (E : inc16 (w16 (h + N.of_nat k)) = w16 (h + N.of_nat (S k))).
+        { rewrite inc16_spec, !w16_spec. lia. }
+        rewrite E in Hne |- *. split; [reflexivity|]. split; [lia|]. split.
+        + destruct (N.eq_dec (N.of_nat (S k)) 65536) as [E2|E2]; [|lia].
+          exfalso. apply Hne. rewrite E2, w16_spec. replace (h + 65536) with (h + 1 * 65536) by lia.
+          rewrite N.mod_add by lia. symmetry. apply N.mod_small. exact Hh.
+        + left. split; [reflexivity|]. exists q. split; assumption.
+      - exists k. apply N.eqb_neq in Hne. split; [reflexivity|]. split; [|split; [lia|right; reflexivity]].
+        destruct k; [|lia]. exfalso. apply Hne. rewrite w16_spec. replace (h + N.of_nat 0) with h by lia.
+        symmetry. apply N.mod_small. exact Hh. }
+    destruct Hn as (n & Hnt & Hn0 & Hn65 & Hnk).
+    apply collect_spec in Hcol; [|rewrite Hch; exact Hh]. rewrite Hch in Hcol.
+    destruct Hcol as (len & Hc & Hlt & Hmin).
+    assert (Hlen : len = n).
+    { destruct (Nat.lt_trichotomy len n) as [Hl|[Hl|Hl]]; [exfalso|exact Hl|exfalso].
+      - rewrite <- Hnt in Hlt. rewrite !w16_spec in Hlt. lia.
+      - apply (Hmin n Hl). exact Hnt. }
+    subst len.
+    apply all_some_spec in Has. rewrite Hc in Has.
+    assert (Hpl : List.length pkts = n).
+    { apply (f_equal (@List.length _)) in Has. rewrite !map_length, keys_from_length in Has. lia. }
+    assert (Hnth : forall j p, nth_error pkts j = Some p ->
+                   (j < n)%nat /\ bget (w16 (h + N.of_nat j)) (buf s) = Some p).
+    { intros j p Hj. assert (Hjn : (j < n)%nat) by (rewrite <- Hpl; apply nth_error_Some; congruence).
+      split; [exact Hjn|].
+      assert (E : nth_error (map (fun k0 => bget k0 (buf s)) (keys_from h n)) j = nth_error (map Some pkts) j) by (rewrite Has; reflexivity).
+      rewrite !nth_error_map, Hj, keys_from_nth in E by assumption. cbn in E. injection E as E. exact E. }
+    split; [exact Hch|]. split; [rewrite <- Hnt; apply w16_lt|].
+    destruct pkts as [|hp rest]; [cbn in Hpl; lia|].
+    exists hp, rest. split; [reflexivity|]. split; [|split].
+    - rewrite Hpl. clear - Has. revert Has. generalize (keys_from h n). intros ks.
+      generalize (hp :: rest). intros l. revert ks. induction l as [|a l IH]; intros ks E; destruct ks; cbn in E; try discriminate; constructor.
+      + injection E as E1 E2. apply bget_In. exact E1.
+      + injection E as E1 E2. apply IH. exact E2.
+    - destruct (Hnth 0%nat hp eq_refl) as [_ H0]. rewrite w16_small in H0 by lia.
+      replace (h + N.of_nat 0) with h in H0 by lia. exact H0.
+    - intros Hs. split.
+      + intros p Hin. rewrite removelast_firstn_len in Hin. apply In_firstn_nth in Hin.
+        destruct Hin as (j & Hj & Hjn). rewrite Hpl in Hj. destruct (Hnth j p Hjn) as [_ Hb].
+        assert (Hjk : (j < k)%nat) by (destruct Hnk as [[-> _]| ->]; lia).
+        destruct (Hp j Hjk) as (p' & Hb' & _ & Ht' & Hts'). rewrite Hb in Hb'. injection Hb' as <-.
+        split; [apply Hts'; exact Hs|exact Ht'].
+      + intros Hlast. pose proof (nth_error_last rest hp) as Hl.
+        destruct (Hnth _ _ Hl) as [_ Hb]. cbn [List.length] in Hpl.
+        destruct Hnk as [[-> (q & Hq & Hqt)]| ->].
+        * assert (List.length rest = k) by lia. subst k. rewrite Hb in Hq. injection Hq as <-. congruence.
+        * assert (Hjk : (List.length rest < k)%nat) by lia.
+          destruct (Hp _ Hjk) as (p' & Hb' & _ & _ & Hts'). rewrite Hb in Hb'. injection Hb' as <-. apply Hts'. exact Hs.
+  Qed.
+End Run.
